@@ -50,6 +50,11 @@ func (f *Tagbody) Call(s *slip.Scope, args slip.List, depth int) slip.Object {
 	ns.TagBody = true
 	d2 := depth + 1
 	for i := 0; i < len(args); i++ {
+		switch args[i].(type) {
+		case slip.Symbol, slip.Integer:
+			// A tag. Tags are not evaluated.
+			continue
+		}
 		if gt, _ := slip.EvalArg(ns, args, i, d2).(*GoTo); gt != nil {
 			for i++; i < len(args); i++ {
 				if args[i] == gt.Tag {
